@@ -32,11 +32,21 @@ PickNames ==
                                    MapOf({Field(<<"f", "g", "h">>, "LA$B;", <<>>)})) : s \in q}))
         /\ q' = t
     /\ phase' = "case"
+(* two chains of depth three whose classes share simple names in the target namespace (the middle ones, the innermost *)
+(* ones, all of a level): the extended name of a class is that of ITS outer class, whatever else is called the same    *)
+TwinSrc == <<"A", "A$B", "A$B$C", "X", "X$Y", "X$Y$Z">>
+TwinNames == {<<"a", "m", "c", "x", "m", "z">>, <<"a", "b", "c", "x", "y", "c">>, <<"a", "m", "c", "x", "m", "c">>, <<"o", "m", "c", "o2", "m", "c">>}
+PickTwin ==
+    /\ phase = "start"
+    /\ \E nm \in TwinNames, t \in 2..3 :
+        /\ M' = Root(NS, <<>>, MapOf({Class([i \in 1..3 |-> IF i = 1 THEN TwinSrc[k] ELSE IF i = t THEN nm[k] ELSE "keep$" \o nm[k]], <<>>, <<>>) : k \in 1..6}))
+        /\ q' = t
+    /\ phase' = "case"
 PickName ==
     /\ phase = "start"
     /\ \E n \in NamePool : q' = n
     /\ phase' = "name" /\ UNCHANGED M
-Next == PickSet \/ PickNames \/ PickName
+Next == PickSet \/ PickNames \/ PickTwin \/ PickName
 Spec == Init /\ [][Next]_vars
 
 InvExtend == phase = "case" => ExtendLaw(M, q)
